@@ -87,7 +87,7 @@ fn poll_wait_step(&self, events_cell: &mut Events, timeout: Option<Duration>) ->
 //@ endslice
 }
 
-//@ slice src/sys.rs / impl Poll / fn poll :: after <<drop(events);>> props=C02,C05 name=Poll::poll::expired_timers_loop
+//@ slice src/sys.rs / impl Poll / fn poll :: after <<drop(events);>> props=C02,C05,C01 name=Poll::poll::expired_timers_loop
 //@ rw R10 * <<self.timers.borrow_mut()>> => <<timers_cell>>
 //@ sig
 /// S1 slice of Poll::poll: everything after `drop(events);` up to the end of the function -- the clock read, the loop
